@@ -152,3 +152,8 @@ Proof.
 Qed.
 
 End Canon2.
+
+Lemma Forall2_nth {A B} (R : A -> B -> Prop) l1 l2 d1 d2 i :
+  Forall2 R l1 l2 -> i < length l1 -> R (nth i l1 d1) (nth i l2 d2).
+Proof. intros H. revert i. induction H; intros [|i] Hi; simpl in *; try lia; auto. apply IHForall2. lia. Qed.
+
